@@ -278,6 +278,28 @@ pub fn handmade_text_message(r: &mut Rng, n: usize, sh: bool) -> Vec<u8> {
     b.extend(p);
     b
 }
+/// bytes of a verbose message with a 32-bit and a 64-bit float argument given by their bit patterns (signalling and quiet NaNs with
+/// payload, infinities, negative zero, subnormals), laid out by hand
+pub fn handmade_float_message(r: &mut Rng, sh: bool) -> Vec<u8> {
+    let be = r.coin();
+    let w32 = |x: u32| if be { x.to_be_bytes() } else { x.to_le_bytes() };
+    let w64 = |x: u64| if be { x.to_be_bytes() } else { x.to_le_bytes() };
+    let f32s = [0x7F80_0001u32, 0x7FA0_0000, 0xFFA5_A5A5, 0x7FC0_0000, 0x7FC1_2345, 0xFFFF_FFFF, 0x7F80_0000, 0xFF80_0000, 0x8000_0000, 0x0000_0001, 0x807F_FFFF, 0x3F80_0000];
+    let f64s = [0x7FF0_0000_0000_0001u64, 0x7FF4_0000_0000_0000, 0xFFF5_A5A5_A5A5_A5A5, 0x7FF8_0000_0000_0000, 0xFFFF_FFFF_FFFF_FFFF, 0x7FF0_0000_0000_0000, 0x8000_0000_0000_0000, 0x0000_0000_0000_0001, 0x3FF0_0000_0000_0000];
+    let mut p: Vec<u8> = vec![];
+    p.extend(w32(0x0000_0083));                           // FLOA 32 bit
+    p.extend(w32(*r.pick(&f32s)));
+    p.extend(w32(0x0000_0084));                           // FLOA 64 bit
+    p.extend(w64(*r.pick(&f64s)));
+    let mut b: Vec<u8> = vec![];
+    if sh { b.extend(b"DLT\x01"); b.extend((r.next() as u32).to_le_bytes()); b.extend((r.next() as u32).to_le_bytes()); b.extend(b"ECU9"); }
+    let total = 4 + 10 + p.len();
+    b.extend([0x21 | if be { 2 } else { 0 }, r.next() as u8, (total >> 8) as u8, total as u8]);
+    b.extend([0x41, 2]);
+    b.extend(b"APP\0CTX\0");
+    b.extend(p);
+    b
+}
 pub fn boundary_message(r: &mut Rng, storage: Option<bool>) -> Message {
     let be = r.coin();
     let endianness = if be { Endianness::Big } else { Endianness::Little };
